@@ -179,7 +179,7 @@ class Executor(ResolutionContext):
                 return self.complete_value(
                     field_definition.type, nodes, path, info, res
                 )
-            except ResolverError as err:
+            except (CoercionError, ResolverError) as err:
                 # Raised while the value is consumed (e.g. by a generator, a
                 # type resolver or a custom scalar): a failure of this field,
                 # whose end hook has already fired.
